@@ -100,6 +100,9 @@ def main(argv):
     if tier not in ("quick", "thorough"):
         tier = os.environ.get("VERIF_TIER", "quick")
     t0 = time.time()
+    import glob
+    for old in glob.glob(os.path.join(core.VERIF, "evidence", "replay", f"{prop}-*.json")):
+        os.remove(old)
     ctx = core.Ctx(prop, tier, seed)
     ctx._changed = anchors_changed(prop)
     # 1. proof obligations
